@@ -135,6 +135,35 @@ def c12(run):
     run.exhaustive = run.tier == "thorough"
 
 
+# ------------------------------------------------------------------------------------ C15
+
+@check("C15")
+def c15(run):
+    run.rule = ("cases = every LoopRange call (add, add_point, scale, shift, contains, includes, mul, "
+                "right_mul_is_exact, predicates) on all pairs of ranges with finite parameters <= 5 (6 thorough) and "
+                "infinite starts likewise, all factors, judged by the set semantics on a window derived from the "
+                "arguments; seeded random parameters < 2^15 judged by closed forms that MC_LoopRanges proves "
+                "equivalent on the small scope; non-trivial = distinct pair/unary record with distinct operands")
+    run.assumptions = ["window argument (W = P(P+1)+1, checked stable against 2W by MC_LoopRanges)",
+                       "values >= 2^31 and the documented u32 overflow panics are outside the model"]
+    run.model("MC_LoopRanges", "MC_LoopRanges_full.cfg" if run.tier == "thorough" else "MC_LoopRanges.cfg",
+              workers=workers(run), timeout=1500,
+              note="closed forms = set semantics; window stability; gap criterion of mk_loop's flattening rule; "
+                   "obligations reject every wrong result range")
+    out, info = _drive(run, "loopranges")
+    need = {"pair_small": lambda r: r.get("op") == "pair" and r["small"],
+            "pair_large": lambda r: r.get("op") == "pair" and not r["small"],
+            "exact_true": lambda r: r.get("op") == "pair" and r["exact"] and r["r"][0] != r["r"][1] and r["s"][0] != r["s"][1],
+            "exact_false": lambda r: r.get("op") == "pair" and not r["exact"],
+            "infinite": lambda r: r.get("op") == "pair" and r["r"][1] < 0}
+    run.validate("loopranges", os.path.join(out, "loopranges.ndjson"), "Trace_LoopRanges", "Trace_LoopRanges.cfg",
+                 ["C15:"], workers=workers(run), need=need,
+                 nontrivial=lambda r: r.get("op") == "unary" or (r.get("op") == "pair" and r["r"] != r["s"]))
+    run.exhaustive = True
+    run.extra["exhaustive_scope"] = "all pairs of ranges with parameters <= %d, all factors <= that" % (6 if run.tier == "thorough" else 5)
+    run.extra["driver"] = info
+
+
 # ------------------------------------------------------------------------------------ regex family
 
 REGEX_ASSUME = [
